@@ -33,13 +33,12 @@ type runOpts struct {
 	rng          *engine.Rng
 }
 
-// per-unit suppression of repeated reports: the first witness of each
-// (API, kind) in a unit is reported, the others are counted.  The state is
-// reset at the start of every unit so that re-running a unit alone (replay,
-// confirmation) reports exactly the same keys.
-var reportedInUnit = map[string]int{}
-
-func resetUnit() { reportedInUnit = map[string]int{} }
+// Suppression of repeated reports: only the FIRST witness of each (API, kind)
+// seen by a child process is reported, further ones are counted
+// ("further_witnesses_not_reported:...").  Units run small sizes first, so the
+// reported witness is the smallest one of its shard; a unit re-executed alone
+// (confirmation, replay) meets the same witness first, so the key reproduces.
+var reported = map[string]int{}
 
 // judge carries one (case, representation).
 type judge struct {
@@ -83,8 +82,8 @@ func (j *judge) detail(extra map[string]interface{}) map[string]interface{} {
 func (j *judge) violation(api, kind, witnessExtra string, extra map[string]interface{}, observed, expected string) {
 	j.dead = true
 	cls := api + "|" + kind
-	reportedInUnit[cls]++
-	if reportedInUnit[cls] > 1 {
+	reported[cls]++
+	if reported[cls] > 1 {
 		j.c.Obs("further_witnesses_not_reported:"+cls, 1)
 		return
 	}
@@ -489,7 +488,7 @@ func (j *judge) maximalCliques(h graph.Graph, r *engine.Rng) {
 	n := g.N
 	var want []string
 	limit := 1<<20 + 1
-	haveRef := n <= 13
+	haveRef := n <= maxListN
 	if haveRef {
 		b := brute.FromRG(g, n)
 		for _, s := range b.MaximalCliques() {
@@ -775,10 +774,8 @@ func (j *judge) properColouringPredicate(h graph.Graph, r *engine.Rng) {
 	}
 	for _, t := range cases {
 		var got bool
-		col := append([]int(nil), t.col...)
-		if t.col == nil {
-			col = nil
-		}
+		col := make([]int, len(t.col))
+		copy(col, t.col)
 		c.Obs("calls:IsProperColouring", 1)
 		extra := map[string]interface{}{"colouring": t.col, "what": t.what}
 		if t.col == nil {
